@@ -73,6 +73,19 @@ def field_provenance(ctx, obs, q: str, class_names: Sequence[str], fields: Seque
             has = any(isinstance(x, ast.Attribute) and x.attr == fld for x in ast.walk(e))
             if not has:
                 has = _helper_reads_field(ctx, f, e, fld)
+            if not has:
+                # the value is taken out of a local container that is filled by statements (append / extend / item stores): the
+                # expression form says nothing about what is in it
+                roots = {x.id for x in ast.walk(b[fld][0]) if isinstance(x, ast.Name)}
+                filled = [m for m in ast.walk(f.node) if isinstance(m, ast.Call) and isinstance(m.func, ast.Attribute)
+                          and m.func.attr in ('append', 'extend', 'insert', 'update', 'setdefault') and isinstance(m.func.value, ast.Name)
+                          and m.func.value.id in roots]
+                filled += [m for m in ast.walk(f.node) if isinstance(m, ast.Assign) and isinstance(m.targets[0], ast.Subscript)
+                           and isinstance(m.targets[0].value, ast.Name) and m.targets[0].value.id in roots]
+                if filled:
+                    obs.unk(rule, q, con, f'`{fld}={norm(b[fld][0])[:50]}` comes out of a container filled by `{norm(filled[0])[:50]}`',
+                            where(prog, f, c.node))
+                    continue
             obs.check(has, rule, q, con,
                       f'`{fld}={norm(b[fld][0])[:60]}` (inlined `{ast.unparse(e)[:90]}`) never reads a `.{fld}`: the result '
                       f'does not carry the source\'s {fld}', '', where(prog, f, c.node))
@@ -190,6 +203,34 @@ def selection_pairing(ctx, obs, q: str, rule='AXIS-pair', matrices_vars: Sequenc
             # selection by basic int / slice names (loop counters) label nothing
             if not _is_selection_var(r, f, idx):
                 n_ob -= 1
+                continue
+            # the selection may reach the descriptors another way: handed to a helper / method, packed into a tuple that is
+            # iterated, aliased.  Only a selection that goes nowhere else is the recognised wrong form.
+            other = [(i, nd) for (i, d, nd) in desc_uses if d == want and i != idx]
+            if other:
+                obs.bad(rule, q, con, f'`{norm(node)[:60]}` selects with `{idx}` but {want} is extracted with `{other[0][0]}` '
+                        f'(`{norm(other[0][1])[:60]}`): values and labels are selected differently', where(prog, f, node))
+                continue
+            arr_nodes = {id(x) for (_i, _f, _a, an) in arr_uses for x in ast.walk(an)}
+            elsewhere = []
+            parents = {}
+            for p_ in ast.walk(f.node):
+                for ch in ast.iter_child_nodes(p_):
+                    parents[id(ch)] = p_
+            for x in ast.walk(f.node):
+                if isinstance(x, ast.Name) and isinstance(x.ctx, ast.Load) and id(x) not in arr_nodes \
+                        and (x.id == idx or _base_selection(r, x) == idx):
+                    p_ = parents.get(id(x))
+                    while isinstance(p_, (ast.keyword, ast.Starred)):
+                        p_ = parents.get(id(p_))
+                    is_lib_call = isinstance(p_, ast.Call) and isinstance(p_.func, ast.Attribute) and isinstance(p_.func.value, ast.Name) \
+                        and p_.func.value.id in ('np', 'numpy', 'scipy')
+                    if (isinstance(p_, (ast.Call, ast.Tuple, ast.List, ast.Dict)) and not is_lib_call) or \
+                            (isinstance(p_, ast.Assign) and p_.value is x) or isinstance(p_, ast.Return):
+                        elsewhere.append(p_)
+            if elsewhere:
+                obs.unk(rule, q, con, f'`{idx}` is not applied to {want} in this function directly; it is handed on in '
+                        f'`{norm(elsewhere[0])[:60]}`', where(prog, f, node))
                 continue
             obs.bad(rule, q, con,
                     f'`{norm(node)[:70]}` selects along axis {ax} of {field} with `{idx}` but no descriptor dict is '
